@@ -162,14 +162,15 @@ type bnSource struct {
 	onAccept func(k int) // called under mu when the take of event k is noticed
 }
 
-func bnNewSource() *bnSource {
-	return &bnSource{cur: make(chan BlockNtfn, 1), tick: make(chan struct{}), lastTip: -1}
+func bnNewSource(slots int) *bnSource {
+	return &bnSource{cur: make(chan BlockNtfn, slots), tick: make(chan struct{}), lastTip: -1}
 }
 
-// syncLocked notices that the handler has taken the event in flight.
+// syncLocked notices which of the offered events the handler has taken:
+// inflight events were put into cur (in order), len(cur) are still there.
 func (s *bnSource) syncLocked() {
-	if s.inflight > s.accepted && len(s.cur) == 0 {
-		s.accepted = s.inflight
+	for taken := s.inflight - len(s.cur); s.accepted < taken; {
+		s.accepted++
 		if s.onAccept != nil {
 			s.onAccept(s.accepted)
 		}
@@ -547,7 +548,7 @@ func bnRunPath(p bnPathIn) (out bnPathOut) {
 			n = st.Act.S
 		}
 	}
-	src := bnNewSource()
+	src := bnNewSource(1)
 	e := &bnEnv{m: NewSubscriptionManager(src), src: src, n: n, subs: make([]*Subscription, n),
 		cst: make([]int, n), regH: make([]int, n), regK: make([]int, n), ended: make([]bool, n),
 		recv: make([][]int, n), closed: make([]int, n)}
@@ -740,7 +741,11 @@ func bnFreeRun(id int, seed int64, minEv, maxEv int, profile string) (out bnPath
 	rng := rand.New(rand.NewSource(seed))
 	n := 2 + rng.Intn(3)
 	nev := minEv + rng.Intn(maxEv-minEv+1)
-	src := bnNewSource()
+	slots := 1
+	if profile == "stop" || rng.Intn(4) == 0 {
+		slots = 2 + rng.Intn(4) // several events ready at once (a source that runs ahead)
+	}
+	src := bnNewSource(slots)
 	f := &bnFree{src: src, n: n, cst: make([]int, n), recv: make([][]int, n), closed: make([]int, n),
 		subs: make([]*Subscription, n), regH: make([]int, n), regK: make([]int, n), ended: make([]bool, n)}
 	src.onAccept = func(k int) { f.logLocked(bnAct{Op: "Emit", K: k, Res: "ok"}, "") }
@@ -781,7 +786,7 @@ func bnFreeRun(id int, seed int64, minEv, maxEv int, profile string) (out bnPath
 		}
 		plans[s] = p
 	}
-	out.Info = fmt.Sprintf("seed=%d subs=%d events=%d stopAt=%d burst=%v early=%v plans=%+v", seed, n, nev, stopAt, burst, early, plans)
+	out.Info = fmt.Sprintf("seed=%d subs=%d events=%d stopAt=%d burst=%v early=%v slots=%d plans=%+v", seed, n, nev, stopAt, burst, early, slots, plans)
 
 	phaseDone := make(chan struct{})
 	var subMu sync.Mutex
@@ -803,23 +808,32 @@ func bnFreeRun(id int, seed int64, minEv, maxEv int, profile string) (out bnPath
 		if !early {
 			src.waitFor(deadline, func() bool { return f.cst[0] != 0 || f.stopRet || f.failed })
 		}
-		for k := 1; k <= nev; k++ {
+		for k := 1; k <= nev; {
 			if !burst && erng.Intn(3) == 0 {
 				time.Sleep(time.Duration(erng.Intn(150)) * time.Microsecond)
 			}
 			src.mu.Lock()
 			src.syncLocked()
-			if f.stopRet || f.failed || len(src.cur) != 0 {
+			if f.stopRet || f.failed {
 				src.mu.Unlock()
 				return
 			}
-			src.cur <- bnEvent(k, true)
-			src.inflight = k
+			// offer as many events as the source channel has free slots
+			for k <= nev && len(src.cur) < cap(src.cur) {
+				src.cur <- bnEvent(k, true)
+				src.inflight = k
+				k++
+			}
+			want := src.accepted + 1
 			src.mu.Unlock()
-			if !src.waitFor(bnBlockT, accepted(k)) {
-				fail(bnAct{Op: "Emit", K: k, Res: "blocked"})
+			if !src.waitFor(bnBlockT, accepted(want)) {
+				fail(bnAct{Op: "Emit", K: want, Res: "blocked"})
 				return
 			}
+		}
+		// wait until everything offered has been taken (or the manager is gone)
+		if !src.waitFor(bnBlockT, accepted(nev)) {
+			fail(bnAct{Op: "Emit", K: nev, Res: "blocked"})
 		}
 	}()
 
